@@ -11,7 +11,13 @@ CT_CONFIGS = {
     "serial32": {"toolchain": "stable", "rustflags": '--cfg curve25519_dalek_backend="serial" --cfg curve25519_dalek_bits="32"'},
     "fiat64":   {"toolchain": "stable", "rustflags": '--cfg curve25519_dalek_backend="fiat" --cfg curve25519_dalek_bits="64"'},
     "fiat32":   {"toolchain": "stable", "rustflags": '--cfg curve25519_dalek_backend="fiat" --cfg curve25519_dalek_bits="32"'},
+    # valgrind cannot execute AVX-512: this configuration is traced with the ptrace stepper (instruction pointers only)
+    "avx512":   {"toolchain": "nightly", "rustflags": '--cfg curve25519_dalek_backend="unstable_avx512"', "stepper": True},
 }
+
+# operations that reach the vector point arithmetic (variable-base, Straus); the rest of the
+# constant-time list runs the serial field code, which the other configurations cover
+IFMA_OPS = ["ed_mul", "ed_mul_secret_point", "ed_mul_clamped", "ed_multiscalar_1", "ed_multiscalar_2", "ed_multiscalar_3"]
 
 L = 2**252 + 27742317777372353535851937790883648493
 
@@ -24,8 +30,8 @@ CT_OPS = [
     "mont_mul_clamped", "mont_mul", "mont_mul_bits_be", "x25519", "x25519_public_key", "x25519_dh",
     "ris_compress", "ris_from_uniform_bytes", "sig_from_bytes", "sig_sign", "sig_sign_prehashed",
 ]
-QUICK_OPS = ["sc_mul", "sc_invert", "sc_from_bytes_mod_order_wide", "ed_add", "ed_compress", "ed_mul_base", "ed_mul", "ed_multiscalar_2",
-             "mont_mul_clamped", "ris_from_uniform_bytes", "sig_sign", "x25519", "sc_add", "ed_ct_eq", "mont_mul", "ed_to_montgomery"]
+QUICK_OPS = ["sc_mul", "sc_invert", "ed_mul", "ed_mul_base", "ed_multiscalar_2", "mont_mul", "ed_to_montgomery", "sc_from_bytes_mod_order_wide",
+             "ed_add", "mont_mul_clamped", "ris_from_uniform_bytes", "sig_sign", "x25519", "ed_ct_eq"]
 TABLE_OPS = [o for o in CT_OPS if o.startswith("ed_table_")]
 CONTROLS = ["vartime_double_base", "vartime_multiscalar"]
 
@@ -59,7 +65,7 @@ def build(config, tables, log):
     env["RUSTFLAGS"] = c["rustflags"]
     tdir = os.path.join(TARGET, "ct-" + config)
     env["CARGO_TARGET_DIR"] = tdir
-    cmd = ["cargo", "build", "--offline", "--release", "--no-default-features"]
+    cmd = ["cargo"] + (["+" + c["toolchain"]] if c["toolchain"] != "stable" else []) + ["build", "--offline", "--release", "--no-default-features"]
     if tables:
         cmd += ["--features", "tables"]
     p = subprocess.run(cmd, cwd=CT, env=env, stdout=subprocess.PIPE, stderr=subprocess.STDOUT, text=True)
@@ -70,18 +76,33 @@ def build(config, tables, log):
     os.makedirs(bindir, exist_ok=True)
     tag = "ct-%s-%s" % (config, "tables" if tables else "notables")
     out = {}
-    for b in ("ct-subject", "ct-cut"):
+    for b in ("ct-subject", "ct-cut", "ct-step"):
         dst = os.path.join(bindir, tag + "-" + b)
         tmp = dst + ".tmp%d" % os.getpid()
         import shutil
         shutil.copy2(os.path.join(tdir, "release", b), tmp)
         os.replace(tmp, dst)
         out[b] = dst
+    if c.get("stepper"):
+        nm = subprocess.run(["nm", out["ct-subject"]], stdout=subprocess.PIPE, text=True).stdout
+        for line in nm.splitlines():
+            f = line.split()
+            if len(f) == 3 and f[2] in ("ct_marker_begin", "ct_marker_end"):
+                out[f[2]] = f[0].lstrip("0") or "0"
+        assert "ct_marker_begin" in out and "ct_marker_end" in out, "marker symbols not found"
+        out["stepper"] = True
     return out
 
 
 def trace(bins, op, secret_path, dump=None):
     """Run one traced execution; returns (hash, n_instr, n_load, n_store) or raises."""
+    if bins.get("stepper"):
+        p = subprocess.run(["env", "-i", bins["ct-step"], bins["ct_marker_begin"], bins["ct_marker_end"], bins["ct-subject"], op, secret_path],
+                           stdout=subprocess.PIPE, stderr=subprocess.PIPE, text=True)
+        if p.returncode != 0:
+            raise RuntimeError("ptrace stepper failed for %s: rc=%s %s" % (op, p.returncode, p.stderr[-300:]))
+        f = p.stdout.split()
+        return f[0], int(f[1]), 0, 0
     cmd = ["env", "-i", "setarch", "x86_64", "-R", "valgrind", "--tool=lackey", "--trace-mem=yes", "--log-fd=1", bins["ct-subject"], op, secret_path]
     cut = [bins["ct-cut"], "-"]
     if dump:
@@ -98,6 +119,8 @@ def trace(bins, op, secret_path, dump=None):
 
 
 def first_divergence(bins, op, pa, pb, scratch):
+    if bins.get("stepper"):
+        return {"note": "instruction-pointer trace (ptrace stepper): hashes and lengths differ; no per-line dump"}
     da, db = os.path.join(scratch, "dump_a.txt"), os.path.join(scratch, "dump_b.txt")
     trace(bins, op, pa, da)
     trace(bins, op, pb, db)
@@ -111,10 +134,11 @@ def first_divergence(bins, op, pa, pb, scratch):
 def run(pid, tier, log, scratch):
     t0 = time.time()
     if tier == "quick":
-        plan = [("simd", True, QUICK_OPS), ("serial64", True, QUICK_OPS[:8])]
+        plan = [("simd", True, QUICK_OPS), ("serial64", True, QUICK_OPS[:7]), ("avx512", True, ["ed_mul", "ed_mul_secret_point", "ed_multiscalar_2"])]
     else:
         plan = [("simd", True, CT_OPS), ("simd", False, [o for o in CT_OPS if o not in TABLE_OPS]), ("serial64", True, CT_OPS),
-                ("serial32", True, [o for o in CT_OPS if o not in TABLE_OPS[1:]]), ("fiat64", True, QUICK_OPS), ("fiat32", True, QUICK_OPS)]
+                ("serial32", True, [o for o in CT_OPS if o not in TABLE_OPS[1:]]), ("fiat64", True, QUICK_OPS), ("fiat32", True, QUICK_OPS),
+                ("avx512", True, IFMA_OPS), ("avx512", False, IFMA_OPS[:3])]
     secs = secrets(tier)
     sdir = os.path.join(scratch, "secrets")
     os.makedirs(sdir, exist_ok=True)
@@ -189,7 +213,8 @@ def run(pid, tier, log, scratch):
         "evaluations": len(jobs),
         "distinct_nontrivial": n_ct,
         "rule": "for each constant-time operation and each secret of the alphabet, the release binary (built without the verification cfg) runs under valgrind lackey; the marker-delimited sequence of (instruction address) and (load/store address, size) is hashed; all secrets of one (configuration, operation) must give one hash. "
-                "distinct_nontrivial = (configuration, operation) groups compared. The documented variable-time entry points are run as positive controls and must give >= 2 distinct traces.",
+                "distinct_nontrivial = (configuration, operation) groups compared. The documented variable-time entry points are run as positive controls and must give >= 2 distinct traces. "
+                "The avx512 configuration (IFMA vector code, which valgrind cannot execute) is traced with a ptrace single-stepper instead: the sequence of instruction pointers between the markers, without data addresses.",
         "samples": groups[:3] + [g for g in groups if g["op"] in CONTROLS][:2],
         "groups": groups,
         "secret_alphabet": [n for n, _ in secs],
